@@ -21,7 +21,7 @@ import os
 
 import z3
 
-from contracts.common import A, C, forall
+from contracts.common import A, C, forall, rechecked
 from pyvc.spec import Builtin, Inline, Spec
 from pyvc.values import Clause, VBool, VGlobal, VInt, VRef, VSeq, VTuple, Vocab, z_int
 
@@ -433,6 +433,7 @@ def _operands(n):
     return list(test.TestOp(result_types=[i32] * n).results) if n else []
 
 
+@rechecked
 def N_same_size(kinds, length):
     """Real verify on an op of a generated definition with `length` operands vs the split-exists spec."""
     from xdsl.utils.exceptions import VerifyException
@@ -484,6 +485,7 @@ def _op_cls_same(kinds):
     return cls
 
 
+@rechecked
 def N_attr_size(kinds, sizes, length):
     from xdsl.dialects.builtin import DenseArrayBase, i32
     from xdsl.utils.exceptions import VerifyException
